@@ -372,6 +372,39 @@ fn index_width_cases(coin: &'static Coin, only: Option<usize>) -> Vec<(String, C
         cb.push(spenders);
         v.push(("txid twins (equal first / last 4 bytes) and txids with a zero first / last byte, one of each spent".to_string(), cb));
     }
+    // the same kinds of twins, BOTH spent, one block apart, in either order, and a third pair of which one member is spent,
+    // re-checked by a later spend of an unrelated output: whatever is keyed by a part of the id (a slot, a fingerprint, a
+    // presence bit that is cleared on a spend) answers for the twin as well
+    if !want(&v) {
+        skip(&mut v);
+    } else {
+        let mut cb = ChainBuilder::with_genesis(coin);
+        let mk = |tag: u8, lt: u32| Tx { version: 1, segwit: false, inputs: vec![TxIn::spend([0xd0 + tag; 32], 0)], outputs: vec![TxOut { value: 1000 + tag as u64, script: script::p2pkh(&script::h20(50 + tag)) }, TxOut { value: 2000 + tag as u64, script: script::p2pkh(&script::h20(60 + tag)) }], locktime: lt, wide: 0 };
+        let twins = |tag: u8, range: std::ops::Range<usize>| -> (Tx, Tx) {
+            let mut seen: std::collections::HashMap<Vec<u8>, u32> = std::collections::HashMap::new();
+            for lt in 0..3_000_000u32 {
+                let t = mk(tag, lt);
+                let key = t.txid()[range.clone()].to_vec();
+                if let Some(prev) = seen.insert(key, lt) {
+                    return (mk(tag, prev), t);
+                }
+            }
+            (mk(tag, 0), mk(tag, 1))
+        };
+        let (a1, a2) = twins(1, 0..4);
+        let (b1, b2) = twins(2, 28..32);
+        let (c1, c2) = twins(3, 0..4);
+        let (d1, d2) = twins(4, 28..32);
+        let spend = |t: &Tx, idx: u32, k: u8| Tx { version: 1, segwit: false, inputs: vec![TxIn::spend(t.txid(), idx)], outputs: vec![TxOut { value: 5, script: script::p2pkh(&script::h20(70 + k)) }], locktime: k as u32, wide: 0 };
+        let first = vec![spend(&a1, 0, 1), spend(&b2, 0, 2), spend(&c1, 1, 3), spend(&d2, 1, 4)];
+        let second = vec![spend(&a2, 0, 5), spend(&b1, 0, 6), spend(&c2, 0, 7)];
+        let third = vec![spend(&c2, 1, 8), spend(&d1, 0, 9)];
+        cb.push(vec![a1, a2, b1, b2, c1, c2, d1, d2]);
+        cb.push(first);
+        cb.push(second);
+        cb.push(third);
+        v.push(("txid twins (equal first / last 4 bytes), both members spent in consecutive blocks in either order, at equal and at different output indices".to_string(), cb));
+    }
     // addresses whose totals are equal although reached differently (50 = 20 + 30 = 10 + 15 + 25), equal to a txid-less
     // constant (1), and equal after a spend: rows are per address, never per amount
     if !want(&v) {
@@ -538,6 +571,8 @@ pub fn run(prop: &str) -> Report {
         rep.caps_hit.push(format!("wall cap {} s: work items up to #{} of {} fully covered (enumeration order, simplest first)", cap, c, items.len()));
     }
     concurrent_siblings(&mut rep, &root, prop, &hist);
+    // a signal at every point of the block loop: whatever is left under a final name after an exit 0 is judged by its name
+    crate::c02::interrupted_runs(&mut rep, &root, prop, if c08 { &["balances"] } else { &["unspentcsvdump"] });
     if thorough || std::env::var("VERIF_HUGE_UTXO").is_ok() {
         huge_utxo_world(&mut rep, &root, c08);
     }
